@@ -1680,6 +1680,9 @@ pub unsafe fn abi_entry_light<T: AbiExportable + ?Sized>(flag: AbiProtocol) {
                     let temp;
                     if let Some(err) = err.downcast_ref::<&str>() {
                         msg = err;
+                    } else if let Some(err) = err.downcast_ref::<String>() {
+                        // The payload of panic!("formatted {}", message)
+                        msg = err;
                     } else {
                         temp = format!("{:?}", err);
                         msg = &temp;
